@@ -2,6 +2,8 @@ import Mav.Gen.MsgsAll
 import Mav.Gen.Consts
 import Mav.Proofs.SortLink
 import Mav.Proofs.LayoutLink
+import Mav.Proofs.PayloadLink
+import Mav.Proofs.DecodeLink
 /-
   C03 — payload layout, sizes and CRC_EXTRA. Property theorems only.
   `layoutAgrees st` (Mav/Model/MsgCheck.lean) says: the MODEL of `ReadWriter.Initialize` accepts `st`, `st` is in the
@@ -60,6 +62,42 @@ theorem layout_universal (st : Msg.GoStruct) (rw : Msg.RW) (d : Spec.Msg.SDef)
   have hs := LayoutLink.sizes_universal st rw d h1 h2 hn
   exact ⟨SortLink.wire_order_agrees st rw d h1 h2, hs.2, hs.1,
     LayoutLink.crc_universal st rw d h1 h2 hn (firstUpper_of_B _ hx.1)⟩
+
+/-- **C03 (payload bytes, for every struct).** For every struct `Initialize` accepts that is a definition in the specification's
+    sense, every assignment of well-typed values and both protocol versions: the bytes the model of `ReadWriter.Write` produces
+    are exactly the bytes the serialization guide prescribes (`Spec.Msg.encode`, written from the guide): fields in wire order,
+    scalars little-endian, arrays element by element, strings cut / NUL-padded to their declared length, enum fields at their
+    declared wire width; in version 2 trailing zero bytes removed but never below one byte, in version 1 the base fields only. -/
+theorem payload_bytes_universal (st : Msg.GoStruct) (rw : Msg.RW) (d : Spec.Msg.SDef)
+    (h1 : Msg.init st = .ok rw) (h2 : Spec.Msg.ofGo st = some d) (vals : List Msg.FVal)
+    (hw : ∀ f ∈ rw.fields, Msg.wellTyped f (Msg.valAt vals f.index) = true) (isV2 : Bool) :
+    Msg.encode rw isV2 vals = .ok (Spec.Msg.encode d isV2 vals) :=
+  PayloadLink.encode_eq_spec st rw d h1 h2 vals hw isV2
+
+/-- **C03 (decoding reads the same layout, for every struct and every payload).** For every struct `Initialize` accepts that is a
+    definition, both versions and EVERY payload (any length, any bytes): the model of `ReadWriter.Read` returns what the
+    serialization guide prescribes (`Spec.Msg.decode`) — a short version-2 payload zero-extended to the extended size, each field
+    taken at its offset in wire order, scalars little-endian, arrays element by element, strings cut at the first NUL; in
+    version 1 exactly the base payload length or a size error. (`isS rw i`: whether struct field i is a Go string — the one fact
+    about the Go type the wire does not carry.) -/
+theorem decoding_universal (st : Msg.GoStruct) (rw : Msg.RW) (d : Spec.Msg.SDef)
+    (h1 : Msg.init st = .ok rw) (h2 : Spec.Msg.ofGo st = some d) (isV2 : Bool) (payload : Bytes) :
+    Msg.decode rw isV2 payload = DecodeLink.ofSpecRes (Spec.Msg.decode d (DecodeLink.isS rw) isV2 payload) :=
+  DecodeLink.decode_eq_spec st rw d h1 h2 isV2 payload
+
+/-- **C03 (sizes, no hypothesis on identifiers).** -/
+theorem sizes_universal (st : Msg.GoStruct) (rw : Msg.RW) (d : Spec.Msg.SDef)
+    (h1 : Msg.init st = .ok rw) (h2 : Spec.Msg.ofGo st = some d) :
+    rw.sizeExtended.toNat = Spec.Msg.sizeExt d ∧ rw.sizeNormal.toNat = Spec.Msg.sizeBase d :=
+  DecodeLink.sizes_eq st rw d h1 h2
+
+/-- an instance: a HEARTBEAT value, version 2 (the trailing zero of `mavlink_version` = 0 … is kept: never below the last non-zero byte) -/
+example : (Msg.init Gen.m_minimal_MessageHeartbeat).toOption.bind (fun rw =>
+      match Msg.encode rw true [.num [6], .num [8], .num [0x81], .num [0x01020304], .num [4], .num [3]] with
+      | .ok p => some p | .panic => none) =
+    (Spec.Msg.ofGo Gen.m_minimal_MessageHeartbeat).map (fun d =>
+      Spec.Msg.encode d true [.num [6], .num [8], .num [0x81], .num [0x01020304], .num [4], .num [3]]) := by
+  set_option maxRecDepth 100000 in decide +kernel
 
 /-- the hypotheses are satisfiable: the standard heartbeat meets all three -/
 example : (Msg.init Gen.m_minimal_MessageHeartbeat).toOption.isSome = true ∧
